@@ -12,7 +12,7 @@ from harness.common import qlit, zlit, optlit
 from harness import exact as X
 
 VFILES = ['Lib/PySlice.v', 'Model/FastLen.v', 'Gen/GenUtils.v', 'Model/Ledger.v', 'Model/Snippet.v', 'Proofs/LedgerProofs.v',
-          'Proofs/SnippetProofs.v', 'Lib/Dft.v', 'Lib/DftC.v', 'Model/Shift.v', 'Proofs/ShiftProofs.v', 'Proofs/ShiftC.v', 'Proofs/SnippetC.v', 'Props/C12.v']
+          'Proofs/SnippetProofs.v', 'Gen/GenSnippet.v', 'Proofs/SnippetGen.v', 'Lib/Dft.v', 'Lib/DftC.v', 'Model/Shift.v', 'Proofs/ShiftProofs.v', 'Proofs/ShiftC.v', 'Proofs/SnippetC.v', 'Props/C12.v']
 
 from harness.c03 import REAL_AX
 
